@@ -228,21 +228,26 @@ def stage_longrun_api(ctx, dis):
                 rec = p[1:]
         ctx.count("longrun-api:%s" % (">2^17" if steps > 2 ** 17 else (">2^16" if steps > 2 ** 16 else "<=2^16")))
         ctx.case_done(("longrun-api", pi), applies > 2 ** 16)
-        if qlen0 != steps:
-            ctx.violation("impl-oracle", "the queue built by the constructor for steps=%d holds %s entries" % (steps, qlen0), case=case,
+        # the property needs a record for every step the caller may execute (`steps`) - a longer queue would be harmless, a shorter
+        # one means front() on an empty queue (or a refill) before the run is over; the theorem says the code builds exactly `steps`
+        if qlen0 is None or qlen0 < steps:
+            ctx.violation("impl-oracle", "the queue built by the constructor for steps=%d holds only %s entries" % (steps, qlen0), case=case,
                           observed=qlen0, expected=steps, sig=dict(kind="longrun-api", clause="queue-length", model=md))
             continue
+        if qlen0 != steps:
+            dis.append(dict(case=case, detail="queue length after construction: implementation %d, model (C19_dynqueue_entry_k_is_consumed_by_apply_k) %d" % (qlen0, steps),
+                            sig=dict(kind="longrun-api", stage="correspondence")))
         last = 0
         badf = None
         for (j, ql, chunk) in flushes:
-            if ql != steps - j or chunk != j - last:
+            if ql != qlen0 - j or chunk != j - last:
                 badf = (j, ql, chunk, last)
                 break
             last = j
         if badf is not None:
             j, ql, chunk, last = badf
             ctx.violation("impl-oracle", "after %d applies (steps=%d) the queue holds %d entries (expected %d: it is never refilled) and the flush returned %d records (expected %d)" % (
-                          j, steps, ql, steps - j, chunk, j - last), case=case, observed=dict(queue=ql, chunk=chunk), expected=dict(queue=steps - j, chunk=j - last),
+                          j, steps, ql, qlen0 - j, chunk, j - last), case=case, observed=dict(queue=ql, chunk=chunk), expected=dict(queue=qlen0 - j, chunk=j - last),
                           sig=dict(kind="longrun-api", clause="queue-length", model=md))
             continue
         if rec is None or len(rec) != 2 * applies:
